@@ -252,7 +252,7 @@ def tdiv(a, b):
                  z3.If(a >= 0, -(a / (-b)), (-a) / (-b)))
 
 
-TOK = re.compile(r"\s*(%s\d+%s|\d+|[A-Za-z_][A-Za-z0-9_]*|[-+*/()])" % (MARK, MARK))
+TOK = re.compile(r"\s*(%s\d+%s|\d+|[A-Za-z_][A-Za-z0-9_]*|\+\+|--|[-+*/()])" % (MARK, MARK))
 
 
 def eval_text(text, names, reg, divisors, lits=(), lang="c"):
@@ -265,7 +265,15 @@ def eval_text(text, names, reg, divisors, lits=(), lang="c"):
         m = TOK.match(text, pos)
         if not m:
             raise ValueError("cannot tokenise emitted value %r" % text)
-        toks.append(m.group(1))
+        if m.group(1) in ("++", "--"):
+            # maximal munch: C and C++ read two adjacent signs as the increment / decrement operator, which no
+            # constant expression may contain (gcc: "lvalue required as decrement operand"); gfortran reads them as
+            # a sign after an operator (an extension it warns about), so the Fortran text keeps its value
+            if lang != "fortran":
+                raise ValueError("%r holds the operator %s: not a constant expression in C" % (text, m.group(1)))
+            toks.extend(m.group(1))
+        else:
+            toks.append(m.group(1))
         pos = m.end()
     i = [0]
 
@@ -625,7 +633,10 @@ def concrete_values(w):
             q = abs(a) // abs(b)
             return q if (a >= 0) == (b >= 0) else -q
         # tiny evaluator with truncating division
-        toks = re.findall(r"\d+|[A-Za-z_]\w*|[-+*/()]", text)
+        toks = re.findall(r"\d+|[A-Za-z_]\w*|\+\+|--|[-+*/()]", text)
+        if lang != "fortran" and ("++" in toks or "--" in toks):
+            raise ValueError("%r holds an increment / decrement operator: not a constant expression in C" % text)
+        toks = [c for t in toks for c in (t if t in ("++", "--") else [t])]
         pos = [0]
 
         def prim():
